@@ -194,6 +194,7 @@ func (vc *VC) callFunction(st *State, fr *Frame, callee *ssa.Function, fv FuncV,
 	if vc.isEffectFree(callee) {
 		res := vc.freshResults(st, sig, "ef_"+callee.Name())
 		vc.setResult(fr, instr, res)
+		vc.callEvent(st, fr, full, args, res, true, pos, sig)
 		return false
 	}
 	inModule := strings.Contains(full, "tkestack.io/kvass")
@@ -209,6 +210,7 @@ func (vc *VC) callFunction(st *State, fr *Frame, callee *ssa.Function, fv FuncV,
 	vc.noteAbstracted(full)
 	res := vc.freshResults(st, sig, "ext_"+callee.Name())
 	vc.setResult(fr, instr, res)
+	vc.callEvent(st, fr, full, args, res, true, pos, sig)
 	return false
 }
 
